@@ -619,6 +619,11 @@ func (this *Writer) Close() error {
 }
 
 func (this *Writer) processBlock() error {
+	if atomic.LoadInt32(&this.blockID) == _CANCEL_TASKS_ID {
+		// A previous block failed: the stream is incomplete, never report success
+		return &IOError{msg: "Stream invalidated by a previous block encoding failure", code: kanzi.ERR_WRITE_FILE}
+	}
+
 	if err := this.writeHeader(); err != nil {
 		return err
 	}
